@@ -851,3 +851,25 @@ func (x *Exec) storeStructElem(st *State, p *Pointer, t types.Type, path []strin
 		st.hset(k, x.vc.define("h", Store(m, p.Base, inner)), p.Base)
 	}
 }
+
+// zeroStructElems zero-initialises every field map of a fresh array of struct values at ref.
+func (x *Exec) zeroStructElems(st *State, ref *Term, t types.Type, path []string, key string) {
+	fs, k := x.fieldsOf(t)
+	if len(path) == 0 {
+		key = k
+	}
+	for _, f := range fs {
+		fpath := append(append([]string{}, path...), f.Name)
+		if f.S == nil && x.isStruct(f.T) {
+			x.zeroStructElems(st, ref, f.T, fpath, key)
+			continue
+		}
+		srt := f.S
+		if srt == nil {
+			srt = x.sortOf(f.T)
+		}
+		hk, ks := x.structElemKey(key, fpath, srt, f.T)
+		m := st.hget(hk, ks)
+		st.hset(hk, x.vc.define("h", Store(m, ref, ConstArray(ArrS(IntS, srt), zeroOfSort(srt)))), ref)
+	}
+}
